@@ -17,6 +17,7 @@ import GFO.Model.Pattern
 import GFO.Model.Powell
 import GFO.Model.Simplex
 import GFO.Model.SmboBackend
+import GFO.Model.Direct
 open GFO GFO.Proto
 
 /-- one recorded backend interaction of the real run -/
@@ -60,6 +61,7 @@ structure Script where
   pow : Option (PowCfg × PowSt) := none         -- when present: the complete Powell's method model (GFO.Model.Powell)
   sim : Option (SimCfg × SimSt) := none         -- when present: the complete downhill simplex model (GFO.Model.Simplex)
   smb : Option (SmboCfg × SmboSt) := none       -- when present: the complete surrogate-model optimizer (GFO.Model.SmboBackend)
+  dir : Option (DirCfg × DirSt) := none         -- when present: the complete DIRECT model (GFO.Model.Direct)
 deriving Inhabited
 
 def Script.raisesNow (s : Script) : Bool := match s.queue with
@@ -185,7 +187,7 @@ def backendSim : Backend Script where
     | none => backendPow.finishInit s
 
 /-- … and the complete surrogate-model optimizer -/
-def backendOf : Backend Script where
+def backendSmb : Backend Script where
   initPos s := match s.smb with
     | some (cfg, g) => ((smboBackend cfg).initPos g).map (fun x => (x.1, { s with smb := some (cfg, x.2) }))
     | none => backendSim.initPos s
@@ -201,6 +203,24 @@ def backendOf : Backend Script where
   finishInit s := match s.smb with
     | some (cfg, g) => ((smboBackend cfg).finishInit g).map (fun g' => { s with smb := some (cfg, g') })
     | none => backendSim.finishInit s
+
+/-- … and the complete DIRECT model -/
+def backendOf : Backend Script where
+  initPos s := match s.dir with
+    | some (cfg, g) => ((dirBackend cfg).initPos g).map (fun x => (x.1, { s with dir := some (cfg, x.2) }))
+    | none => backendSmb.initPos s
+  iterate s := match s.dir with
+    | some (cfg, g) => ((dirBackend cfg).iterate g).map (fun x => (x.1, { s with dir := some (cfg, x.2) }))
+    | none => backendSmb.iterate s
+  evalInit s x := match s.dir with
+    | some (cfg, g) => ((dirBackend cfg).evalInit g x).map (fun g' => { s with dir := some (cfg, g') })
+    | none => backendSmb.evalInit s x
+  evaluate s x := match s.dir with
+    | some (cfg, g) => ((dirBackend cfg).evaluate g x).map (fun g' => { s with dir := some (cfg, g') })
+    | none => backendSmb.evaluate s x
+  finishInit s := match s.dir with
+    | some (cfg, g) => ((dirBackend cfg).finishInit g).map (fun g' => { s with dir := some (cfg, g') })
+    | none => backendSmb.finishInit s
 
 def showTracker (t : Tracker) : String :=
   s!"new={showOpt showPos t.posNew}:{showF t.scoreNew} cur={showOpt showPos t.posCurrent}:{showF t.scoreCurrent} " ++
@@ -264,9 +284,10 @@ def flushTape (m : M) : M :=
       | some (cfg, g), _ => { b with pow := some (cfg, { g with tape := g.tape ++ es }) }
       | none, some (cfg, g) => { b with sim := some (cfg, { g with tape := g.tape ++ es }) }
       | none, none =>
-        match b.smb with
-        | some (cfg, g) => { b with smb := some (cfg, { g with tape := g.tape ++ es }) }
-        | none => b
+        match b.smb, b.dir with
+        | some (cfg, g), _ => { b with smb := some (cfg, { g with tape := g.tape ++ es }) }
+        | none, some (cfg, g) => { b with dir := some (cfg, { g with tape := g.tape ++ es }) }
+        | none, none => b
   { m with d := { m.d with bst := b' }, pending := #[] }
 
 /-- run the pending call; output = one line per step of this call, then the result line -/
@@ -519,6 +540,18 @@ def exec (m : M) (cmd : String) : P (M × List String) := do
       pure (m, [s!"tracker {showTracker g.tr}",
                 s!"smbo X={showList showPos g.sm.X} Y={showList showF g.sm.Y} ncands={g.sm.cands.length} tapeLeft={g.tape.length}"])
     | none => pure (m, ["err:no-smbo-backend"])
+  | "cnew" => do
+    let nInits ← pNat
+    let eps ← pRat
+    let initL ← pList (pN m.sp.dims.length pInt)
+    let cfg : DirCfg := { sizes := m.sp.sizes, epsMod := eps, geo := m.sp.geo }
+    pure ({ m with d := { nInits := nInits, bst := { dir := some (cfg, { initL := initL }) } }, call := none, warm := [], steps := #[], byCall := #[], pending := #[] }, ["ok"])
+  | "cstate" =>
+    match m.d.bst.dir with
+    | some (_, g) =>
+      pure (m, [s!"tracker {showTracker g.tr}",
+                s!"direct nX={g.X.length} Y={showList showF g.Y} subs={showList (fun (sb : Sub) => showList toString (sb.dims.map List.length) ++ "@" ++ showPos sb.center ++ ":" ++ showOpt showF sb.score ++ ":" ++ (if sb.score.isSome then showF sb.bound else "-")) g.subs} tapeLeft={g.tape.length}"])
+    | none => pure (m, ["err:no-direct-backend"])
   | "lstep" => do
     let dur ← pRat; let r ← pRes
     pure ({ m with steps := m.steps.push (r, dur) }, [])
